@@ -70,7 +70,13 @@ def gen_history(rng):
             sub = base + [rng.choice([1, 2, 3])] if len(base) < 3 else base
         used.append(sub)
         sessions.append({"kind": "filler", "sub": sub, "reopen": reopen, "ops": gen_ops(rng, eps)})
-    return {"eps": eps, "sessions": sessions}
+    h = {"eps": eps, "sessions": sessions}
+    r = rng.random()
+    if r < 0.15:
+        h["algs"] = []                      # a dataset configured without checksum algorithms
+    elif r < 0.3:
+        h["algs"] = rng.choice([["md5", "xxh64"], ["sha512"], ["xxh32", "sha256", "md5"]])
+    return h
 
 
 def coq_session(s):
